@@ -401,8 +401,12 @@ func vfRunC07One(ctx *vfCtx, c vfCaseC07) {
 	// not deterministic and only termination and resources are checked.
 	strict := nWell <= c.Mut.Frame
 	switch c.Mut.Kind {
-	case "cut", "append", "insert", "none", "replace":
+	case "cut", "append", "insert", "none":
 		strict = true
+	case "replace":
+		// arbitrary (fuzzed) streams are not conflict-free: the twin comparison is
+		// only deterministic when at most one request is in flight
+		strict = nWell <= 1
 	}
 	if strict {
 		vfC07Compare(ctx, &c, a, twin, c, nWell)
